@@ -372,7 +372,15 @@ def _place_adt(f, pl):
 # --------------------------------------------------------------------------- summaries
 
 def int_params(f):
-    return [i for i in range(1, f.argc + 1) if f.local_ty(i) in INT_TYPES]
+    """parameters that can carry a tracked resource: of a resource type, or a tuple with a component of one (`(ptr, length)` handed on as one value)"""
+    out = []
+    for i in range(1, f.argc + 1):
+        ty = f.local_ty(i)
+        if ty in INT_TYPES:
+            out.append(i)
+        elif ty.startswith("(") and ty.endswith(")") and any(x.strip() in INT_TYPES for x in ty[1:-1].split(",")):
+            out.append(i)
+    return out
 
 
 def compute_summaries(F, own_direct, own_containers):
